@@ -143,7 +143,8 @@ fn queries(sv: &SparseVector, vals: &[usize], w: usize, lv: &Level, rng: &mut Rn
     idxs.extend(extremes(n));
     ranks.extend(extremes(m));
     zranks.extend(extremes(z));
-    let (cap_idx, cap_rank) = if thorough() { (60, 30) } else if m == 0 && n > 5000 { (10, 8) } else { (22, 11) };
+    // an empty vector over a large universe makes every successor scan walk all of high: ask fewer questions
+    let (cap_idx, cap_rank) = if m == 0 && n > 5000 { (10, 8) } else if thorough() { (36, 18) } else { (22, 11) };
     if lv.all_args && n <= 40 && m <= 60 {
         idxs.extend(0..=n + 1);
         ranks.extend(0..=m + 1);
@@ -234,7 +235,7 @@ fn queries(sv: &SparseVector, vals: &[usize], w: usize, lv: &Level, rng: &mut Rn
         let k = std::cmp::min(z, if thorough() { 40 } else { 12 });
         qs.push(format!("QZeroIter {} {}", k + 1, ires(&catch(|| sv.zero_iter().take(k + 1).collect::<Vec<(usize, usize)>>()), |x| plist(x))));
         // one_iter: forward, backward, mixed
-        let steps = std::cmp::min(m, if thorough() { 70 } else { 20 }) + 2;
+        let steps = std::cmp::min(m, if thorough() { 40 } else { 20 }) + 2;
         let mut pats: Vec<Vec<bool>> = vec![vec![false; steps], vec![true; steps]];
         pats.push((0..steps).map(|_| rng.below(2) == 0).collect());
         if thorough() {
@@ -249,7 +250,7 @@ fn queries(sv: &SparseVector, vals: &[usize], w: usize, lv: &Level, rng: &mut Rn
         }
         out.stat("queries.one_iter_walks");
         // the bit iterator, small universes only (it walks over every position)
-        if n <= (if thorough() { 300 } else { 70 }) {
+        if n <= (if thorough() { 150 } else { 70 }) {
             let steps = n + 2;
             let mut pats: Vec<Vec<bool>> = vec![vec![false; steps], vec![true; steps]];
             pats.push((0..steps).map(|_| rng.below(2) == 0).collect());
@@ -437,7 +438,7 @@ fn run_sets(rng: &mut Rng, out: &mut Out, thorough: bool) {
             if m > n || !seen.insert(m) {
                 continue;
             }
-            if replay_cost(n, m) > budget {
+            if replay_cost(n, m) > budget || (m == 0 && n > (1 << 17)) {
                 out.stat("grid.skipped_too_large_for_replay");
                 continue;
             }
@@ -498,7 +499,7 @@ fn run_sets(rng: &mut Rng, out: &mut Out, thorough: bool) {
     }
 
     // bucket boundaries and full / empty buckets at moderate sizes
-    let reps = if thorough { 40 } else { 4 };
+    let reps = if thorough { 15 } else { 4 };
     for w in [1u32, 2, 3, 5, 8, 12] {
         for _ in 0..reps {
             let m = rng.range(3, 400) as usize;
@@ -575,14 +576,14 @@ fn run_sets(rng: &mut Rng, out: &mut Out, thorough: bool) {
     }
 
     // random
-    for _ in 0..(if thorough { 600 } else { 40 }) {
+    for _ in 0..(if thorough { 250 } else { 40 }) {
         let mb = if rng.below(4) == 0 { 64 } else { 24 };
         let n = log_uniform(rng, mb);
         let mut m = log_uniform(rng, 11);
         if m > n {
             m = n;
         }
-        if replay_cost(n, m) > budget / 10.0 {
+        if replay_cost(n, m) > budget / 10.0 || (m == 0 && n > (1 << 14)) {
             continue;
         }
         let st = rng.below(5);
@@ -650,7 +651,7 @@ fn run_multisets(rng: &mut Rng, out: &mut Out, thorough: bool) {
         }
     }
     // duplicate runs next to bucket boundaries, at 0 and at n - 1
-    let reps = if thorough { 30 } else { 5 };
+    let reps = if thorough { 15 } else { 5 };
     for w in [1u32, 2, 3, 4, 6, 9, 13, 20, 40, 62] {
         for _ in 0..reps {
             let m = rng.range(4, 300) as usize;
@@ -708,7 +709,7 @@ fn run_multisets(rng: &mut Rng, out: &mut Out, thorough: bool) {
         emit(out, "single_value", 1, n, &vals, &Level { all_args: n <= 300, samples: 6, iters: true }, rng);
     }
     // random multisets
-    for _ in 0..(if thorough { 500 } else { 50 }) {
+    for _ in 0..(if thorough { 250 } else { 50 }) {
         let mb = if rng.below(4) == 0 { 64 } else { 20 };
         let n = std::cmp::max(1, log_uniform(rng, mb));
         let m = log_uniform(rng, 10);
@@ -754,7 +755,7 @@ fn run_multisets(rng: &mut Rng, out: &mut Out, thorough: bool) {
 
 pub fn run(rng: &mut Rng, out: &mut Out, thorough: bool, multiset: bool, variant: &str) {
     THOROUGH.store(thorough, std::sync::atomic::Ordering::Relaxed);
-    PRIMARY.store(thorough || variant == "native_dev", std::sync::atomic::Ordering::Relaxed);
+    PRIMARY.store(variant == "native_dev" || (thorough && variant == "native_release"), std::sync::atomic::Ordering::Relaxed);
     if multiset {
         run_multisets(rng, out, thorough);
     } else {
